@@ -233,7 +233,7 @@ class Driver:
         # the model is asked in batches under a time limit: when the implementation produced pathological output (names
         # that grow with every command ...) the model driver may need far longer than the run itself; the lines it did not
         # answer in time are then simply not compared (the oracle still judges those cases) and the run says so
-        limit = float(os.environ.get('VERIF_DRIVER_BUDGET', 600))
+        limit = float(os.environ.get('VERIF_DRIVER_BUDGET', 400))
         out, t0, B = [], time.time(), 2000
         for k in range(0, len(lines), B):
             left = limit - (time.time() - t0)
@@ -495,7 +495,7 @@ def _check(prop, tier, replay):
     harness_exc = []          # exceptions inside the plugin on single cases: they must not mask violations elsewhere
     # a library that became pathologically slow (a structure that grows with every use) must end in a verdict on what was
     # run, not in a harness timeout: the cases that do not fit into 40% of the wall-clock budget are left out (and said so)
-    run_budget = float(os.environ.get('VERIF_RUN_BUDGET', 0.4 * int(os.environ.get('VERIF_WALL', '5400' if tier == 'thorough' else '2700'))))
+    run_budget = float(os.environ.get('VERIF_RUN_BUDGET', 0.4 * int(os.environ.get('VERIF_WALL', '5400' if tier == 'thorough' else '2700')) if tier == 'thorough' else 600))
     t_run0 = time.time()
     for i, c in enumerate(cases):
         if i % 16 == 0 and time.time() - t_run0 > run_budget:
